@@ -12,10 +12,12 @@ record("AsyncJob", file="jade/jobs/async_job_interface.py", cls="AsyncJobInterfa
     "return_code": "Opt[int]",
     "cancel_on_blocking_job_failure": "bool",
     "blocking": "Set[Name]",
+    "job_id": "Opt[Name]",     # scheduler id of a batch (AsyncHpcSubmitter.job_id); unused by node-level jobs
+    "g_is_batch": "bool",      # ghost: the job is a batch handed to the scheduler (AsyncHpcSubmitter)
     "g_launched": "int",       # how many times run() started the job's process / sbatch
     "g_canceled": "bool",
     "g_done": "bool",          # is_complete() has returned True
-}, extra_attrs={"blocking", "g_launched", "g_canceled", "g_done"})
+}, extra_attrs={"blocking", "job_id", "g_is_batch", "g_launched", "g_canceled", "g_done"})
 
 record("JobQueue", file=F, fields={
     "_queue_depth": "int",
@@ -43,8 +45,9 @@ contract("AsyncJob.is_complete", kind="assumed",
          note="AsyncJobInterface.is_complete: completion is sticky; a complete job has a return code")
 contract("AsyncJob.run", kind="assumed",
          params=[("self", "Ref[AsyncJob]")], returns="Enum[Status]",
-         ensures=["self.g_launched == old(self.g_launched) + 1", "ghost.runs == old(ghost.runs) + 1"],
-         modifies=["self.g_launched", "self.g_done", "self.return_code", "ghost.runs"],
+         ensures=["self.g_launched == old(self.g_launched) + 1", "ghost.runs == old(ghost.runs) + 1",
+                  "implies(result == Status.GOOD and self.g_is_batch, not isnone(self.job_id))"],
+         modifies=["self.g_launched", "self.g_done", "self.return_code", "self.job_id", "ghost.runs"],
          note="AsyncJobInterface.run: starts the job's process (or sbatch) exactly once per call")
 contract("AsyncJob.cancel", kind="assumed",
          params=[("self", "Ref[AsyncJob]")],
@@ -69,12 +72,15 @@ contract("JobQueue.outstanding_jobs", file=F, inline=True, params=[("self", "Ref
 define("nout", ["q"], "card(keys(q._outstanding_jobs))")
 # capacity invariant (C06)
 define("Inv_cap", ["q"], "nout(q) <= q._queue_depth")
+# every outstanding entry of a submitter's queue is an allocated batch with a scheduler id
+define("Inv_ids", ["q"], "forall(x, q._outstanding_jobs, allocated(q._outstanding_jobs[x]) and q._outstanding_jobs[x].g_is_batch and not isnone(q._outstanding_jobs[x].job_id))")
 
 # ---- JobQueue operations -------------------------------------------------------------------------
 contract("JobQueue._run_job", file=F,
          params=[("self", "Ref[JobQueue]"), ("job", "Ref[AsyncJob]")],
          requires=["nout(self) < self._queue_depth",          # C06: only called with a free slot
-                   "empty(job.blocking)"],                     # C02: never called for a job that still has blockers
+                   "empty(job.blocking)",                      # C02: never called for a job that still has blockers
+                   "forall(x, self._outstanding_jobs, self._outstanding_jobs[x] != job)"],   # C01: a job object is started at most once
          ensures=["job.g_launched == old(job.g_launched) + 1", "ghost.runs == old(ghost.runs) + 1",
                   "unchanged(AsyncJob.g_launched, job)",
                   "Inv_cap(self)",
@@ -82,12 +88,14 @@ contract("JobQueue._run_job", file=F,
                   "and self._outstanding_jobs[x] == old(self._outstanding_jobs)[x]))",
                   "implies(job.name in self._outstanding_jobs, self._outstanding_jobs[job.name] == job or job.name in old(self._outstanding_jobs))",
                   "nout(self) <= old(nout(self)) + 1 and nout(self) >= old(nout(self))",
-                  "self._queued_jobs == old(self._queued_jobs)"],
-         modifies=["self._num_jobs", "self._outstanding_jobs", "AsyncJob.g_launched", "AsyncJob.g_done", "AsyncJob.return_code", "ghost.runs"])
+                  "self._queued_jobs == old(self._queued_jobs)",
+                  "unchanged(AsyncJob.job_id, job) and unchanged(AsyncJob.g_is_batch)",
+                  "implies(job.g_is_batch and allocated(job) and old(Inv_ids(self)), Inv_ids(self))"],
+         modifies=["self._num_jobs", "self._outstanding_jobs", "AsyncJob.g_launched", "AsyncJob.g_done", "AsyncJob.return_code", "AsyncJob.job_id", "ghost.runs"])
 
 contract("JobQueue.submit", file=F,
          params=[("self", "Ref[JobQueue]"), ("job", "Ref[AsyncJob]")],
-         requires=["Inv_cap(self)"],
+         requires=["Inv_cap(self)", "forall(x, self._outstanding_jobs, self._outstanding_jobs[x] != job)"],
          ensures=["Inv_cap(self)",
                   "self._queue_depth == old(self._queue_depth)",
                   # started at once iff there is a free slot and nothing blocks it; otherwise queued, not started
@@ -100,5 +108,47 @@ contract("JobQueue.submit", file=F,
                   "unchanged(AsyncJob.g_launched, job)",
                   "nout(self) <= old(nout(self)) + 1 and nout(self) >= old(nout(self))",
                   "forall(x, Name, implies(x != job.name, (x in self._outstanding_jobs) == (x in old(self._outstanding_jobs)) "
-                  "and self._outstanding_jobs[x] == old(self._outstanding_jobs)[x]))"],
-         modifies=["self._num_jobs", "self._outstanding_jobs", "self._queued_jobs", "AsyncJob.g_launched", "AsyncJob.g_done", "AsyncJob.return_code", "ghost.runs"])
+                  "and self._outstanding_jobs[x] == old(self._outstanding_jobs)[x]))",
+                  "unchanged(AsyncJob.job_id, job) and unchanged(AsyncJob.g_is_batch)",
+                  "implies(job.g_is_batch and allocated(job) and old(Inv_ids(self)), Inv_ids(self))"],
+         modifies=["self._num_jobs", "self._outstanding_jobs", "self._queued_jobs", "AsyncJob.g_launched", "AsyncJob.g_done", "AsyncJob.return_code",
+                   "AsyncJob.job_id", "ghost.runs"])
+
+contract("JobQueue.__init__", file=F, qualname="JobQueue.__init__",
+         params=[("self", "Ref[JobQueue]"), ("max_queue_depth", "int"), ("existing_jobs", "Opt[List[Ref[AsyncJob]]]", "None"),
+                 ("poll_interval", "int", "10"), ("monitor_func", "Opt[Opaque]", "None"), ("monitor_interval", "Opt[int]", "10")],
+         returns="Ref[JobQueue]",
+         ensures=["self._queue_depth == max_queue_depth", "len(self._queued_jobs) == 0", "self._num_jobs == 0 and self._num_completed == 0",
+                  "implies(isnone(existing_jobs), empty(self._outstanding_jobs))",
+                  "implies(not isnone(existing_jobs), forall(i, range(len(val(existing_jobs))), val(existing_jobs)[i].name in self._outstanding_jobs) "
+                  "and forall(x, self._outstanding_jobs, exists(i, range(len(val(existing_jobs))), val(existing_jobs)[i].name == x "
+                  "and self._outstanding_jobs[x] == val(existing_jobs)[i])) and nout(self) <= len(val(existing_jobs)))",
+                  "self._monitor_func == monitor_func"],
+         loops={1: {"invariant": [
+             "forall(i, range(_k1), _it1[i].name in self._outstanding_jobs)",
+             "forall(x, self._outstanding_jobs, exists(i, range(_k1), _it1[i].name == x and self._outstanding_jobs[x] == _it1[i]))",
+             "nout(self) <= _k1",
+             "self._queue_depth == max_queue_depth and len(self._queued_jobs) == 0 and self._num_jobs == 0 and self._num_completed == 0 "
+             "and self._monitor_func == monitor_func",
+         ]}},
+         modifies=["self._queue_depth", "self._poll_interval", "self._outstanding_jobs", "self._queued_jobs", "self._num_jobs",
+                   "self._num_completed", "self._monitor_func", "self._last_monitor_time", "self._monitor_interval"])
+
+contract("JobQueue.process_queue", file=F,
+         params=[("self", "Ref[JobQueue]")],
+         requires=["Inv_cap(self) or len(self._queued_jobs) == 0"],
+         ensures=[
+             "self._queue_depth == old(self._queue_depth)",
+             "implies(old(Inv_cap(self)), Inv_cap(self))",
+             # a submitter's queue never holds queued jobs: then nothing is started, entries only leave, and only when complete (C06/C18)
+             "implies(old(len(self._queued_jobs)) == 0, len(self._queued_jobs) == 0 and ghost.runs == old(ghost.runs))",
+             "implies(old(len(self._queued_jobs)) == 0, forall(x, self._outstanding_jobs, x in old(self._outstanding_jobs) "
+             "and self._outstanding_jobs[x] == old(self._outstanding_jobs)[x]))",
+             "implies(old(len(self._queued_jobs)) == 0, forall(x, old(self._outstanding_jobs), x in self._outstanding_jobs or old(self._outstanding_jobs)[x].g_done))",
+             "implies(old(len(self._queued_jobs)) == 0, nout(self) <= old(nout(self)))",
+         ],
+         raises={"ExecutionError": {"ensures": ["self._outstanding_jobs == old(self._outstanding_jobs) and self._queued_jobs == old(self._queued_jobs)",
+                                                "ghost.runs == old(ghost.runs)"], "frame": False}},
+         modifies=["self._outstanding_jobs", "self._queued_jobs", "self._num_jobs", "self._num_completed", "self._last_monitor_time", "ghost.runs",
+                   "AsyncJob.g_done", "AsyncJob.return_code", "AsyncJob.g_launched", "AsyncJob.g_canceled", "AsyncJob.blocking",
+                   "HpcStatusCollector._statuses", "HpcStatusCollector._last_poll_time", "ghost.last_status", "ghost.collected", "ghost.collected_failed"])
